@@ -28,8 +28,9 @@ var respBufPool = sync.Pool{
 }
 
 type pendingRequest struct {
-	ch     chan *radius.Packet
-	secret []byte
+	ch      chan *radius.Packet
+	secret  []byte
+	reqAuth [16]byte
 }
 
 type radiusConn struct {
@@ -202,6 +203,7 @@ func (rc *radiusConn) exchange(packet *radius.Packet) (*radius.Packet, error) {
 
 	ch := make(chan *radius.Packet, 1)
 	req := &pendingRequest{ch: ch, secret: rc.secret}
+	copy(req.reqAuth[:], raw[4:20])
 
 	rc.mu.Lock()
 	rc.pending[id] = req
@@ -245,18 +247,35 @@ func (rc *radiusConn) readLoop(conn *net.UDPConn) {
 		}
 
 		resp, err := radius.Parse(buf[:n], rc.secret)
-		respBufPool.Put(bufPtr)
 		if err != nil {
+			respBufPool.Put(bufPtr)
 			continue
 		}
 
 		id := resp.Identifier
 		rc.mu.Lock()
 		req := rc.pending[id]
-		if req != nil {
-			rc.pending[id] = nil
-		}
 		rc.mu.Unlock()
+
+		// A reply is acted upon only if its Response Authenticator (and
+		// Message-Authenticator, when present) verifies against the request
+		// that is actually outstanding. Anything else is dropped without
+		// consuming the pending slot, so a forged or stale datagram cannot
+		// pre-empt the genuine reply.
+		if req != nil && !isAuthenticReply(buf[:n], req.reqAuth[:], req.secret) {
+			req = nil
+		}
+		respBufPool.Put(bufPtr)
+
+		if req != nil {
+			rc.mu.Lock()
+			if rc.pending[id] == req {
+				rc.pending[id] = nil
+			} else {
+				req = nil
+			}
+			rc.mu.Unlock()
+		}
 
 		if req != nil {
 			select {
@@ -265,6 +284,46 @@ func (rc *radiusConn) readLoop(conn *net.UDPConn) {
 			}
 		}
 	}
+}
+
+// isAuthenticReply verifies the Response Authenticator (RFC 2865 section 3)
+// of raw against the authenticator of the request it answers and, when the
+// reply carries a Message-Authenticator, that attribute as well (RFC 3579
+// section 3.2: HMAC-MD5 over the reply with the Request Authenticator in the
+// authenticator field and the attribute value zeroed). Octets beyond the
+// declared length are padding and are ignored.
+func isAuthenticReply(raw, reqAuth, secret []byte) bool {
+	if len(raw) < 20 {
+		return false
+	}
+	length := int(raw[2])<<8 | int(raw[3])
+	if length < 20 || length > len(raw) {
+		return false
+	}
+	raw = raw[:length]
+
+	h := md5.New()
+	h.Write(raw[:4])
+	h.Write(reqAuth)
+	h.Write(raw[20:])
+	h.Write(secret)
+	if !hmac.Equal(h.Sum(nil), raw[4:20]) {
+		return false
+	}
+
+	offset := findAttr80(raw)
+	if offset < 0 {
+		return true
+	}
+	tmp := make([]byte, len(raw))
+	copy(tmp, raw)
+	copy(tmp[4:20], reqAuth)
+	for i := 0; i < 16; i++ {
+		tmp[offset+i] = 0
+	}
+	mac := hmac.New(md5.New, secret)
+	mac.Write(tmp)
+	return hmac.Equal(mac.Sum(nil), raw[offset:offset+16])
 }
 
 func findAttr80(raw []byte) int {
